@@ -8,12 +8,14 @@ package c11
 
 import (
 	"errors"
+	"github.com/caddyserver/caddy/v2"
 	"io"
 	"net"
 	"time"
 
 	"github.com/mholt/caddy-l4/layer4"
 	"github.com/mholt/caddy-l4/modules/l4proxy"
+	"github.com/mholt/caddy-l4/modules/l4throttle"
 	"go.uber.org/zap"
 
 	"verifharness/env"
@@ -337,6 +339,44 @@ func VH_relay() {
 	vapi.Assert(hc.cw == 1 && hc.wAt == len(sc.Written), "upstream end-of-stream was not propagated to the client after the last byte")
 }
 
+// VH_relay_wrapped: the same relay behind a handler that wraps the client connection
+// (throttle without limits; proxy_protocol and tee wrap in the same way): the client's
+// transport still offers half-close, so the upstream's end-of-stream must reach it.
+func VH_relay_wrapped() {
+	resetEnv()
+	u := mkUpstream(0, 0, 1)
+	h := l4proxy.VerifNewHandler(l4proxy.UpstreamPool{u}, &l4proxy.FirstSelection{}, 0, 0, nil, 0)
+	mkUp = func(i int) *upConn { return &upConn{id: i, payload: vapi.Bytes("up", vapi.Param("UPL", 2))} }
+	D := vapi.Bytes("D", vapi.Param("DL", 2))
+	sc := &env.SymConn{D: D, MaxReads: 3}
+	hc := &halfConn{SymConn: sc}
+	cx := layer4.WrapConnection(hc, nil, zap.NewNop())
+	var front layer4.NextHandler
+	switch vapi.Choice("wrapping handler", 2) {
+	case 0:
+		th := &l4throttle.Handler{}
+		vapi.Assert(th.Provision(caddy.Context{}) == nil, "provision")
+		front = th
+	case 1:
+		front = plainWrapper{}
+	}
+	err := layer4.Handlers{front, h}.Compile().Handle(cx)
+	vapi.Assert(err == nil, "Handle failed")
+	vapi.Cover("relayed behind a wrapping handler")
+	vapi.AssertBytesEqual(ups[0].got, D, "the upstream did not receive the client's stream")
+	vapi.AssertBytesEqual(sc.Written, ups[0].payload, "the client did not receive the upstream's bytes in order")
+	vapi.Assert(ups[0].closeW == 1, "client end-of-stream was not propagated to the upstream")
+	vapi.Assert(hc.cw == 1 && hc.wAt == len(sc.Written), "upstream end-of-stream was not propagated to the client although its transport offers half-close")
+}
+
+// plainWrapper continues on cx.Wrap(cx) - a Connection whose underlying connection is
+// the previous Connection (what the PROXY protocol and tee handlers produce).
+type plainWrapper struct{}
+
+func (plainWrapper) Handle(cx *layer4.Connection, next layer4.Handler) error {
+	return next.Handle(cx.Wrap(cx))
+}
+
 // ---- C12 (sender side): PROXY header to upstreams -------------------------------------------------------------------
 
 // VH_ppsend: with proxy_protocol v2 configured, each upstream receives exactly
@@ -403,7 +443,7 @@ func VH_ppsend_fail() {
 
 func init() {
 	for name, f := range map[string]func(){
-		"VH_ppsend_fail": VH_ppsend_fail,
+		"VH_ppsend_fail": VH_ppsend_fail, "VH_relay_wrapped": VH_relay_wrapped,
 		"VH_maxconn": VH_maxconn, "VH_active": VH_active, "VH_failwindow": VH_failwindow, "VH_retry": VH_retry,
 		"VH_relay": VH_relay, "VH_ppsend": VH_ppsend, "VH_limits": VH_limits,
 	} {
